@@ -472,6 +472,9 @@ func corr(args []string) {
 		impl.Printf("D\n")
 		desc.Printf("defaults\n")
 	}
+	cases.Printf("U\n")
+	impl.Printf("U\n")
+	desc.Printf("fields of unrecognised checks\n")
 	r := rng.FromEnv(7311)
 	dist := map[string]int{}
 	total := 0
